@@ -7,7 +7,7 @@ from .. import httpx
 from ..astutil import method_call, unparse, is_self_call
 from ..index import dotted, walk_local
 from ..loader import AnalysisError
-from ..absint import Domain, Interp, NORMAL
+from ..absint import Domain, Interp, NORMAL, RETURN
 
 EXPLANATION = ("C16: interprocedural raise/catch analysis (E7) from http.Server.service, http.BareServer.service and "
                "http.Client.service with taint seeded from the receive buffers: the set of input-dependent exception "
@@ -207,9 +207,81 @@ def check(run):
     run.floor("C16.R2", 5)
     errored_guard(run)
     run.floor("C16.R3", 2)
+    head_state_definitely_assigned(run)
+    run.floor("C16.R4", 8)
+
+
+def _chain_arms(node):
+    """arms of an if/elif chain: [(test, body)], and the final else body (or None)"""
+    arms = []
+    cur = node
+    while True:
+        arms.append((cur.test, cur.body))
+        if len(cur.orelse) == 1 and isinstance(cur.orelse[0], ast.If):
+            cur = cur.orelse[0]
+            continue
+        return arms, (cur.orelse or None)
+
+
+def _stores_attr(body):
+    out = set()
+    for st in body:
+        for n in ast.walk(st):
+            if isinstance(n, ast.Assign):
+                for t in n.targets:
+                    d = dotted(t)
+                    if d and d.startswith("self.") and d.count(".") == 1:
+                        out.add(d)
+    return out
+
+
+def head_state_definitely_assigned(run):
+    """R4 (exhaustive dispatch): in the head parsers, when two or more arms of one if/elif chain each assign the same per-message
+    attribute, the chain decides that attribute; it must then have an else arm assigning it too, unless the attribute was given a
+    value earlier in the same function.  Otherwise a head that matches no arm (HTTP/1.2 with arms for 1.0 and 1.1) is accepted by
+    the parser but leaves None - or the previous message's value - behind, and the code that runs after parsing, outside the
+    parser's error guard (Server.buildEnviron, Steward.respond, Client.serviceResponse), raises or answers for the wrong message."""
+    ix = run.ix
+    HS, HC = httpx.HS, httpx.HC
+    n = 0
+    for mod, cname in ((HS, "Requestant"), (HC, "Respondent")):
+        cls = ix.cls(mod, cname)
+        for meth in ("parseHead",):     # checkPersisted dispatches on the version that parseHead decides; C18.R5 covers it
+            f = ix.method(cls, meth)
+            chains = []
+            inner = set()
+            for node in walk_local(f.node):
+                if isinstance(node, ast.If) and id(node) not in inner:
+                    cur = node
+                    while len(cur.orelse) == 1 and isinstance(cur.orelse[0], ast.If):
+                        cur = cur.orelse[0]
+                        inner.add(id(cur))
+                    chains.append(node)
+            for ch in chains:
+                arms, final = _chain_arms(ch)
+                if len(arms) + (1 if final is not None else 0) < 2:
+                    continue
+                per_arm = [_stores_attr(b) for t, b in arms]
+                decided = set.intersection(*per_arm) if per_arm else set()
+                for attr in sorted(decided):
+                    branches = len(arms) + (1 if final is not None and attr in _stores_attr(final) else 0)
+                    if branches < 2:
+                        continue        # a single conditional store is a flag with a default elsewhere, not a dispatch
+                    n += 1
+                    has_else = final is not None and (attr in _stores_attr(final) or isinstance(final[-1], (ast.Raise, ast.Return)))
+                    before = any(isinstance(st, ast.Assign) and attr in {dotted(t) for t in st.targets} and st.lineno < ch.lineno
+                                 for st in walk_local(f.node))
+                    ok = has_else or before
+                    run.ob("C16.R4", "%s:%s-decided-exhaustively" % (f.fq, attr), ok, run.site(f, ch),
+                           "" if ok else "%s.%s assigns %s in each of the %d arms of `if %s ... elif ...` but has no else arm and no earlier "
+                           "default: a head matching none of the arms is accepted with %s unset (None, or the previous message's value "
+                           "on a kept-alive connection) and the code that reads it after parsing raises" %
+                           (cname, meth, attr, len(arms), unparse(arms[0][0]), attr))
+    return n
 
 
 MUTANTS = [
+    Mutant("version-unset-for-other-minor", HS, "Requestant.parseHead", "        else:\n            self.version = (1, 1)", "        elif version.startswith(u\"HTTP/1.1\"):\n            self.version = (1, 1)", {"C16.R4"}),
     Mutant("narrow-parsemessage-handler", HT, "Parsent.parseMessage", "except (HTTPException, ValueError) as ex:  # malformed message bytes", "except BadStatusLine as ex:", {"C16.R1"}, canary=True),
     Mutant("environ-int-unguarded", HS, "Server.buildEnviron", "environ['CONTENT_LENGTH'] = str(requestant.length)", "environ['CONTENT_LENGTH'] = int(requestant.headers['content-length'])", {"C16.R1"}, canary=True),
     Mutant("reintroduce-valueerror-escapes", HT, "Parsent.parseMessage", "except (HTTPException, ValueError) as ex:  # malformed message bytes", "except HTTPException as ex:", {"C16.R1"}),
